@@ -442,6 +442,11 @@ FIXED += [
     {"id": "weighted", "start": "Expr", "classes": [
         _c("Expr", "", abstract=True), _c("Lit", "Expr", [("v", I01)], weight=3),
         _c("Neg", "Expr", [("e", E)], weight=2), _c("Plus", "Expr", [("l", E), ("r", E)], weight=1)]},
+    # weights under TWO non-terminals
+    {"id": "weighted2", "start": "Expr", "classes": [
+        _c("Expr", "", abstract=True), _c("Op", "", abstract=True),
+        _c("Lit", "Expr", [("v", I01)], weight=3), _c("Un", "Expr", [("o", ("sym", "Op")), ("e", E)], weight=2),
+        _c("Inc", "Op", [], weight=2), _c("Dec", "Op", [], weight=1), _c("Sq", "Op", [], weight=4)]},
     # concrete start symbol that is recursive only indirectly, through a sized list of an abstract type
     {"id": "blocks", "start": "Block", "classes": [
         _c("Stmt", "", abstract=True),
